@@ -39,6 +39,7 @@ type evaluation struct {
 // ---- engine "wrapped": the rate function handed to NewIterationWorker is wrapped -------------
 
 type cadenceCase struct {
+	IntervalUs int // tick interval in microseconds (fractions of a millisecond included)
 	IntervalMs int
 	RunMs      int
 	Profile    string // constant | staged | zero
@@ -50,29 +51,33 @@ type cadenceCase struct {
 }
 
 func (c cadenceCase) desc() string {
-	return fmt.Sprintf("interval=%dms run=%dms profile=%s n=%d stages=%q dist=%s c=%d body=%dus", c.IntervalMs, c.RunMs, c.Profile, c.N, c.Stages, c.Dist, c.Conc, c.BodyUs)
+	return fmt.Sprintf("interval=%dus(+%dms) run=%dms profile=%s n=%d stages=%q dist=%s c=%d body=%dus", c.IntervalUs, c.IntervalMs, c.RunMs, c.Profile, c.N, c.Stages, c.Dist, c.Conc, c.BodyUs)
 }
 
 func TestProp_WrappedRateCadence(t *testing.T) {
 	dir := t.TempDir()
 	rapid.Check(t, func(rt *rapid.T) {
 		c := cadenceCase{
-			IntervalMs: rapid.OneOf(rapid.IntRange(2, 20), rapid.IntRange(2, 250)).Draw(rt, "intervalMs"),
+			IntervalMs: rapid.OneOf(rapid.IntRange(2, 20), rapid.IntRange(2, 250), rapid.IntRange(101, 250)).Draw(rt, "intervalMs"),
+			IntervalUs: rapid.SampledFrom([]int{0, 0, 0, 100, 500, 900}).Draw(rt, "intervalExtraMicros"),
 			RunMs:      rapid.OneOf(rapid.IntRange(50, 300), rapid.IntRange(50, 1200)).Draw(rt, "runMs"),
 			Profile:    rapid.SampledFrom([]string{"constant", "constant", "staged", "zero", "ramp", "gaussian"}).Draw(rt, "profile"),
 			N:          rapid.IntRange(1, 30).Draw(rt, "n"),
 			Dist:       rapid.SampledFrom([]string{"none", "none", "regular", "random"}).Draw(rt, "distribution"),
-			Conc:       rapid.OneOf(rapid.IntRange(1, 4), rapid.IntRange(1, 64)).Draw(rt, "concurrency"),
+			Conc:       rapid.OneOf(rapid.IntRange(1, 4), rapid.IntRange(1, 64), rapid.SampledFrom([]int{2000, 10000, 30000})).Draw(rt, "concurrency"),
 			BodyUs:     rapid.SampledFrom([]int{0, 100, 2000}).Draw(rt, "bodyMicros"),
 		}
 		var rates *api.Rates
 		var err error
+		c.IntervalUs += 1000 * c.IntervalMs
+		unit := fmt.Sprintf("%dus", c.IntervalUs)
+		tick := time.Duration(c.IntervalUs) * time.Microsecond
 		switch c.Profile {
 		case "constant":
-			rates, err = constant.CalculateConstantRate(0, fmt.Sprintf("%d/%dms", c.N, c.IntervalMs), c.Dist)
+			rates, err = constant.CalculateConstantRate(0, fmt.Sprintf("%d/%s", c.N, unit), c.Dist)
 		case "zero":
 			c.N = 0
-			rates, err = constant.CalculateConstantRate(0, fmt.Sprintf("0/%dms", c.IntervalMs), c.Dist)
+			rates, err = constant.CalculateConstantRate(0, fmt.Sprintf("0/%s", unit), c.Dist)
 		case "ramp":
 			a := rapid.IntRange(0, c.N).Draw(rt, "rampStart")
 			b := rapid.IntRange(0, c.N).Draw(rt, "rampEnd")
@@ -80,13 +85,13 @@ func TestProp_WrappedRateCadence(t *testing.T) {
 				b = a + 1
 			}
 			c.Stages = fmt.Sprintf("ramp %d->%d", a, b)
-			rates, err = ramp.CalculateRampRate(fmt.Sprintf("%d/%dms", a, c.IntervalMs), fmt.Sprintf("%d/%dms", b, c.IntervalMs), c.Dist,
-				time.Duration(max(c.RunMs, c.IntervalMs))*time.Millisecond, 0)
+			rates, err = ramp.CalculateRampRate(fmt.Sprintf("%d/%s", a, unit), fmt.Sprintf("%d/%s", b, unit), c.Dist,
+				max(time.Duration(c.RunMs)*time.Millisecond, tick), 0)
 		case "gaussian":
 			// a window of 20 ticks around "now"; the bell is wide so most ticks request something
-			repeat := time.Duration(20*c.IntervalMs) * time.Millisecond
+			repeat := 20 * tick
 			c.Stages = fmt.Sprintf("gaussian repeat=%s", repeat)
-			rates, err = gaussian.CalculateGaussianRate(float64(20*c.N), 0, repeat, time.Duration(c.IntervalMs)*time.Millisecond,
+			rates, err = gaussian.CalculateGaussianRate(float64(20*c.N), 0, repeat, tick,
 				repeat/2, repeat, "", c.Dist)
 		case "staged":
 			var parts []string
@@ -95,7 +100,7 @@ func TestProp_WrappedRateCadence(t *testing.T) {
 				parts = append(parts, fmt.Sprintf("%dms:%d", rapid.IntRange(20, 400).Draw(rt, "stageMs"), rapid.IntRange(0, c.N).Draw(rt, "target")))
 			}
 			c.Stages = strings.Join(parts, ",")
-			rates, err = staged.CalculateStagedRate(0, time.Duration(c.IntervalMs)*time.Millisecond, c.Stages, c.Dist, nil)
+			rates, err = staged.CalculateStagedRate(0, tick, c.Stages, c.Dist, nil)
 		}
 		if err != nil {
 			rt.Fatalf("VERIF-INFRA: cannot build rates for %s: %v", c.desc(), err)
@@ -162,7 +167,13 @@ func TestProp_WrappedRateCadence(t *testing.T) {
 		if snap.DroppedIterationCount > 0 {
 			cls = append(cls, "with-drops")
 		}
-		if interval != time.Duration(c.IntervalMs)*time.Millisecond {
+		if c.IntervalUs%1000 != 0 {
+			cls = append(cls, "interval-with-sub-millisecond-part")
+		}
+		if c.Conc >= 2000 {
+			cls = append(cls, "slow-pool-start-up")
+		}
+		if interval != tick {
 			cls = append(cls, "distributed-subticks")
 		}
 		stats.Case("wrapped", c.desc(), nontrivial, cls, func() any {
